@@ -36,13 +36,18 @@ and the sink's flush; images are counted; no reachable `unreachable!()`/index pa
   (and reproduced on the crate by the harness): the error is reported by the call that hits it and by
   `finish`, nothing panics, one IEND attempt.
 
-These stay `_partial` because they hold for the sink that never fails only: on the stream path "no call
-panics" is FALSE for failing sinks — `C19_stream_no_panic_counterexample` (N12, open; predicted by the model,
-found on the crate by the fault sweep): after a failed row write a stale row index survives into the next,
-narrower frame.  The other clauses (one IEND, error reported by the failing call) are tied for every sink by
-the harness (write-fault sweep over every byte offset, once/permanent, flush faults) but not proved: the
-argument needs the exact interplay of flate2's retry loop, `ChunkWriter`'s `Ok(0)` on a full buffer and
-`Wrapper::Unrecoverable`.
+These stay `_partial` because they are proved for the sink that never fails only.  No panic of the stream
+path is known any more (N12 — a stale row index after a failed row write — is repaired by c724280;
+`C19_stream_sink_failures` has the run).  For EVERY sink the clauses (no panic, one IEND, error reported by the
+failing call) are tied by the harness (write-fault sweep over every byte offset, once/permanent, flush faults)
+but not proved.  What blocks the proof: (1) the invariant has to follow flate2's retry loop through every
+partial state — output pending in `zio::Writer`, a chunk buffer left full by a failed `flush_inner` (after
+which `ChunkWriter::write` answers `Ok(0)` = `WriteZero` until an explicit `flush` retries), a row recorded as
+complete whose compression failed (`index = line_len`, `to_write = 0`), `Wrapper::Unrecoverable` — and show for
+each that the slices `curr_buf[..line_len][index..]`, `to_write -= written`, `assert_eq!(index, 0)` and the
+`unreachable!()` arms stay safe; (2) the `u32` counter `animation_written` needs a bound on the number of
+frame headers written (as `ops.length < 2^32` for the whole-image API), which for the stream writer depends
+on the bytes supplied, not on the number of calls.
 Still FALSE (N10, open): `C19_stream_finish_abandoned_counterexample` — with an abandoned stream-writer
 session every call incl. `finish` returns `Ok` under `validate_sequence` and the file is invalid.  By design
 of `Drop` (remainder of N11): a session dropped in the MIDDLE of an image cannot report a sink error
@@ -177,32 +182,21 @@ theorem C19_stream_session {imgOk : ImgRule} {C D W H : Nat} {V : Bool} {Z : ZCo
     the error, one IEND attempt; 1 of 3 declared frames with validation — `finish` reports `MissingFrames`;
     the stream-written image is counted by `Writer::finish`; a 1-byte chunk buffer request works; a sink error
     while the second fcTL is written is reported, the next calls do not panic; `write_image_data` failing
-    between fcTL and IDAT, three stream images later: no panic -/
+    between fcTL and IDAT, three stream images later: no panic; the former N12 (repaired by c724280): a sink
+    failure during a `flush` in the middle of the last row of a frame, then a narrower frame — the errors are
+    reported, the next `write` starts at the beginning of its row, for every failure offset 0..299 -/
 theorem C19_stream_sink_failures :
     (runD14.final = [.ok, .err .io, .err .io] ∧ runD14.state.sink.iendAttempts = 1) ∧
     (runD14v.final = [.ok, .ok, .err .missingFrames] ∧ runD14v.state.sink.iendAttempts = 1) ∧
     (runN8.results = [[.ok, .ok, .ok]] ∧ runN8.final = [.ok]) ∧
     runN1.final = [.ok, .ok, .ok] ∧
     (anyPanic runN2.final = false ∧ runN2.final.take 3 = [.ok, .ok, .err .io]) ∧
-    (runN9.results.any anyPanic = false ∧ runN9.final = [.ok]) :=
-  ⟨⟨runD14_facts.1, runD14_facts.2.2⟩, runD14v_facts, ⟨runN8_facts.1, runN8_facts.2.1⟩, runN1_facts, runN2_facts, runN9_facts⟩
-
-/-- "No call panics" for programs with the stream writer on EVERY sink (any back-ends, arguments in range). -/
-def C19_stream_no_panic_statement : Prop :=
-  ∀ (E : Codec) (Z : ZCodec) (c : Cfg) (beh : SinkBehaviour) (steps : List Step) (fin : PFinal),
-    c.WellFormed → c.Small → (∀ s ∈ steps, s.inRange) → fin.inRange →
-    (runProg E Z c beh steps fin).results.any anyPanic = false ∧ anyPanic (runProg E Z c beh steps fin).final = false
-
-/-- N12 (open): two frames on a 2x1 canvas through `into_stream_writer_with_size(4)`, the second frame set to
-    1x1; the sink fails once (byte offset 91) during a `flush` in the middle of the first row.  `flush` =
-    `Err(io)`; the rest of the row = `Err(WriteZero)` — but the row is already recorded as complete
-    (`index = line_len`, `to_write = 0`); `flush` again = `WrittenTooMuch`; the next `write` starts the narrower
-    frame and slices `curr_buf[..line_len][index..]` with the stale index: panic at encoder.rs:1739.  The crate
-    shows the same results at the same offsets 91..107. -/
-theorem C19_stream_no_panic_counterexample :
-    ¬ C19_stream_no_panic_statement ∧
-    runN12.final = [.ok, .ok, .ok, .err .io, .err .writeZero, .err .writtenTooMuch, .panic .rowSlice] :=
-  ⟨stream_no_panic_counterexample, runN12_facts⟩
+    (runN9.results.any anyPanic = false ∧ runN9.final = [.ok]) ∧
+    (runN12.final = [.ok, .ok, .ok, .err .io, .err .writeZero, .err .writtenTooMuch, .ok, .ok] ∧
+      runN12.state.sink.iendAttempts = 1 ∧
+      ((List.range 300).all fun n => !anyPanic (runN12At n).final) = true) :=
+  ⟨⟨runD14_facts.1, runD14_facts.2.2⟩, runD14v_facts, ⟨runN8_facts.1, runN8_facts.2.1⟩, runN1_facts, runN2_facts, runN9_facts,
+    runN12_facts⟩
 
 /-- `C19_stream_validation_partial`'s first half WITHOUT the requirement that every session is complete. -/
 def C19_stream_finish_abandoned_statement : Prop :=
